@@ -21,7 +21,7 @@ import (
 // response (real http.Transport over the simulated transport).
 
 func init() {
-	register(&Prop{ID: "C13", Run: runC13, Enum: enumC13, Quick: 4000, Thorough: 15000, Level: "exploration",
+	register(&Prop{ID: "C13", Run: runC13, Enum: enumC13, Quick: 4000, Thorough: 300000, Level: "exploration",
 		Exhaustive: "response grammar: status x Connection x Upgrade x accept-key x subprotocol x extension variants x client mode (thorough); covering sample (quick)"})
 }
 
